@@ -24,8 +24,8 @@ const header = "From Coq Require Import Uint63.\nFrom GL Require Import VM.Opcod
 var extraCmds = map[string]func([]string){}
 
 // prototypes above these sizes are checked by the Go port only (quadratic lookups in the Gallina checker)
-const coqMaxFn = 12000
-const coqMaxTotal = 60000
+var coqMaxFn = 12000
+var coqMaxTotal = 60000
 
 type input struct {
 	Kind string `json:"kind"` // file | src | adv | codec
@@ -47,6 +47,7 @@ type ctx struct {
 	overBudg int
 	runErrs  int
 	ntrans   int
+	deferred []func()
 }
 
 func main() {
@@ -60,6 +61,10 @@ func main() {
 	// compiler/VM) must kill this process, not its neighbours
 	lim := syscall.Rlimit{Cur: 24 << 30, Max: 24 << 30}
 	syscall.Setrlimit(syscall.RLIMIT_AS, &lim)
+	if v := os.Getenv("C07_COQ_MAX_FN"); v != "" { // development: push larger prototypes through coqc
+		fmt.Sscan(v, &coqMaxFn)
+		coqMaxTotal = 5 * coqMaxFn
+	}
 	a := lib.ParseArgs()
 	if a.Cmd != "run" {
 		fmt.Fprintln(os.Stderr, "unknown command", a.Cmd)
@@ -73,6 +78,9 @@ func main() {
 		"sources: every .lua under _lua5.1-tests and _glua-tests, random programs (all statement kinds at all block positions, goto shapes, closures/upvalues, varargs, methods, constructors, both for loops), adversarial size ladders; " +
 		"plus opcode.go codec cases on boundary/random words. non-trivial = chunk with >= 8 instructions and at least one jump/skip, multi-word group or nested prototype (codec: word with all fields non-zero); distinct by Gallina term"
 	c := &ctx{w: w, rejected: map[string]int{}}
+	if a.Tier == "thorough" && os.Getenv("C07_COQ_MAX_FN") == "" {
+		coqMaxFn, coqMaxTotal = 30000, 120000
+	}
 	r := lib.NewRand(a.Seed)
 	if a.Replay != "" {
 		replay(c, a.Replay)
